@@ -60,6 +60,17 @@ class Ctx:
                 self.build_failures[n] = e.stderr[-3000:]
         return out
 
+    def bitvec_version(self):
+        """version of bitvec pinned by /repo's Cargo.lock (the model rows of appendix A were read from 1.1.1)"""
+        import tomllib
+        try:
+            with open(os.path.join(facts.REPO, "Cargo.lock"), "rb") as fh:
+                lock = tomllib.load(fh)
+            vs = [p["version"] for p in lock.get("package", []) if p["name"] == "bitvec"]
+            return vs[0] if len(vs) == 1 else None
+        except Exception:
+            return None
+
     @property
     def decls(self):
         """enum declarations deriving Codec, keyed by ADT path"""
